@@ -2,13 +2,15 @@
 # Reader exit, close-after-WaitGroup and the status line (C05)
 
 `pkg/extractor/batchers/fileBatcher.go: OpenFilesToChan` (and `tailBatcher.go: TailFilesToChan`): every reader
-goroutine ends with the deferred block `<-sema; wg.Done(); out.stopFileReading(name)`; the spawning goroutine does
-`wg.Wait(); out.close()`.  So the batch channel is closed after every reader's `wg.Done()` – but a reader's status
-bookkeeping (`stopFileReading`: remove from the active list, `readCount++`) comes AFTER its `wg.Done()`.
+goroutine ends with the deferred block `<-sema; out.stopFileReading(name); wg.Done()`; the spawning goroutine does
+`wg.Wait(); out.close()`.  So the batch channel is closed after every reader's `wg.Done()`, and a reader's status
+bookkeeping (`stopFileReading`: remove from the active list, `readCount++`) comes BEFORE its `wg.Done()`: a closed
+channel implies a complete status.  Until /repo 7025f4b the two calls stood in the other order (`wg.Done()`, then
+`stopFileReading`) and the status could lag behind the close (`oldOrder`, finding "closelag").
 
 Abstract protocol: reader `i` has a program counter 0 → 1 → 2 (two exit actions in program order); `doneAt` is
 the pc value from which the WaitGroup counts it as done, `stoppedAt` the one from which the status shows it as
-finished.  The code: `doneAt = 1`, `stoppedAt = 2`.  The other order (stop, then Done): `doneAt = 2`, `stoppedAt = 1`.
+finished.  The code: `doneAt = 2`, `stoppedAt = 1`.  The order before the repair: `doneAt = 1`, `stoppedAt = 2`.
 -/
 namespace Rare.C05Close
 
@@ -16,10 +18,10 @@ structure Cfg where
   doneAt : Nat
   stoppedAt : Nat
 
-/-- The order in the source. -/
-def code : Cfg := ⟨1, 2⟩
-/-- `stopFileReading` before `wg.Done()`. -/
-def stopFirst : Cfg := ⟨2, 1⟩
+/-- The order in the source: `stopFileReading` before `wg.Done()`. -/
+def code : Cfg := ⟨2, 1⟩
+/-- The order in the source before /repo 7025f4b: `wg.Done()` before `stopFileReading`. -/
+def oldOrder : Cfg := ⟨1, 2⟩
 
 structure St where
   pcs : List Nat          -- one per reader
